@@ -1,7 +1,7 @@
 SPECIFICATION Spec
-CONSTANTS MaxN = 4 MaxIter = 3 StrictA = FALSE
+CONSTANTS MaxN = 4 MaxIter = 2 StrictA = TRUE
   AsIs_UnconditionalUnshuffle = FALSE Mut_NoReshuffle = FALSE Mut_FeedUnlabeled = TRUE Mut_InverseMixup = FALSE
-CONSTANT Thresholds <- ThrMid
+CONSTANT Thresholds <- ThrSmall
 CONSTANT ShuffleVals <- BothB
 INVARIANT NoUnlabeledFed
 CHECK_DEADLOCK FALSE
